@@ -30,6 +30,7 @@ unsigned long GE, GB, GPOS;
 char g_old;
 unsigned long GMK; /* ghost: offset of the watched byte inside the range handed to memmove / memset */
 _Bool G_MV;         /* ghost: the watched byte lies inside that range */
+_Bool G_KP;         /* ghost: the watched byte lies in the data block OUTSIDE the range written by memmove and must survive */
 unsigned long GCP;  /* ghost: position (in the data block) of the watched byte at the time of a memcpy into the block */
 _Bool G_CPK;        /* ghost: the watched byte exists at that time (== G_IN) */
 _Bool G_IN; /* ghost: the watched position lies inside the sequence (GE < used) on entry */
@@ -50,6 +51,14 @@ vf_fnptr g_qsort_cmp;
 #define FREE_F_OK (g_dp->free_f == NULL || g_dp->free_f == (vf_fnptr)ghost_cb)
 /* representation invariant on entry (wf_dynar) */
 #define WF_IN (__CPROVER_rw_ok(g_dp, sizeof(*g_dp)) && NUM_OK(SZMAX) && DATA_IN && FREE_F_OK)
+/* The units that move / clear byte ranges of symbolic length are checked once per element size SimGrid instantiates
+ * (harness define -DELM=4 / -DELM=8): with a symbolic elmsize the offsets are products of two 64-bit unknowns and the
+ * SAT back end does not finish. Their callees' contracts stay general (any elmsize <= ELMMAX). */
+#ifdef ELM
+#define ELM_OK (g_dp->elmsize == ELM)
+#else
+#define ELM_OK 1
+#endif
 #define IS_DYN(d) ((d) == g_dp)
 #define BYTE(e, b) (((char*)g_dp->data)[(e) * g_dp->elmsize + (b)])
 #define WATCH                                                                                                          \
@@ -82,6 +91,18 @@ vf_fnptr g_qsort_cmp;
    EQB(e, 9) && EQB(e, 10) && EQB(e, 11) && EQB(e, 12) && EQB(e, 13) && EQB(e, 14) && EQB(e, 15))
 #else
 #error "ELB must be 2, 3 or 4"
+#endif
+#ifdef ELM
+/* fixed element size: "all ELM bytes equal" is stated as one word comparison (56 guarded byte reads in one clause make
+ * symbolic execution of the clause itself take minutes); memcmp's assumed contract stays bytewise */
+#undef EQ_ELEM
+#if ELM == 4
+#define EQ_ELEM(e) (((const unsigned int*)g_dp->data)[e] == *(const unsigned int*)g_src)
+#elif ELM == 8
+#define EQ_ELEM(e) (((const unsigned long*)g_dp->data)[e] == *(const unsigned long*)g_src)
+#else
+#error "ELM must be 4 or 8"
+#endif
 #endif
 #define IS_MATCH(e) ((e) < g_dp->used && EQ_ELEM(e))
 #if SZB == 2
@@ -137,10 +158,10 @@ void* memcpy(void* dst, const void* src, size_t n)
 void* memmove(void* dst, const void* src, size_t n)
     __CPROVER_requires(n <= BYTES_MAX && __CPROVER_rw_ok(dst, n) && __CPROVER_r_ok(src, n) && IN_DATA(dst))
     __CPROVER_requires(!G_MV || (GMK < n && ((const char*)src)[GMK] == g_old))
-    __CPROVER_requires(!(G_IN && !G_MV) || (__CPROVER_r_ok(OBJ_BASE(dst), GPOS + 1) && OBJ_BASE(dst)[GPOS] == g_old && OUTSIDE(GPOS, dst, n)))
+    __CPROVER_requires(!G_KP || (__CPROVER_r_ok(OBJ_BASE(dst), GPOS + 1) && OBJ_BASE(dst)[GPOS] == g_old && OUTSIDE(GPOS, dst, n)))
     __CPROVER_assigns(__CPROVER_object_whole(dst))
     __CPROVER_ensures(__CPROVER_return_value == dst && (!G_MV || ((char*)dst)[GMK] == g_old))
-    __CPROVER_ensures(!(G_IN && !G_MV) || OBJ_BASE(dst)[GPOS] == g_old);
+    __CPROVER_ensures(!G_KP || OBJ_BASE(dst)[GPOS] == g_old);
 
 void* memset(void* p, int c, size_t n)
     __CPROVER_requires(n <= BYTES_MAX && __CPROVER_rw_ok(p, n) && -128 <= c && c <= 127 && IN_DATA(p))
@@ -218,7 +239,9 @@ void _check_populated_dynar(struct xbt_dynar_s* dynar)
 /* ---------------- storage helpers ------------------------------------------------------------------------------------ */
 void _xbt_dynar_resize(struct xbt_dynar_s* dynar, unsigned long new_size)
     __CPROVER_requires(NO_EXC && IS_DYN(dynar) && WF_IN && WATCH && new_size >= g_dp->size && new_size <= SZOUT)
-    __CPROVER_assigns(g_dp->size, g_dp->data)
+    /* conditional frame: a replaced contract must not havoc the data pointer when nothing is reallocated, else the
+     * caller loses the pointer's target (CBMC resolves dereferences through points-to sets, not through equalities) */
+    __CPROVER_assigns(new_size != g_dp->size : g_dp->size, g_dp->data)
     __CPROVER_frees(new_size != g_dp->size : g_dp->data)
 #ifdef H_resize /* checked with the body of xbt_realloc inlined (see check.json) */
     __CPROVER_ensures(OLD_BLOCK_RELEASED(new_size != OLD(g_dp->size))) /*@ resize_releases_old_block */
@@ -229,7 +252,7 @@ void _xbt_dynar_resize(struct xbt_dynar_s* dynar, unsigned long new_size)
 
 void _xbt_dynar_expand(struct xbt_dynar_s* dynar, unsigned long nb)
     __CPROVER_requires(NO_EXC && IS_DYN(dynar) && WF_IN && WATCH && nb <= SZMAX + 1)
-    __CPROVER_assigns(g_dp->size, g_dp->data)
+    __CPROVER_assigns(nb > g_dp->size : g_dp->size, g_dp->data)
     __CPROVER_frees(nb > g_dp->size : g_dp->data)
     __CPROVER_ensures(NO_EXC && g_dp->size >= nb && g_dp->size >= OLD(g_dp->size) && g_dp->size <= SZOUT)
     /*@ expand_makes_room_for_nb */
@@ -287,7 +310,7 @@ void* xbt_dynar_get_ptr(struct xbt_dynar_s* dynar, unsigned long idx)
 
 void* xbt_dynar_set_at_ptr(struct xbt_dynar_s* dynar, unsigned long idx)
     __CPROVER_requires(NO_EXC && (dynar == NULL || IS_DYN(dynar)) && WF_IN && WATCH && idx <= SZMAX && (!(g_dp->used <= GE && GE < idx) || GMK == GPOS - g_dp->used * g_dp->elmsize))
-    __CPROVER_assigns(vf_exc, g_dp->size, g_dp->data, g_dp->used DATA_TARGET)
+    __CPROVER_assigns(vf_exc, g_dp->used; idx + 1 > g_dp->size : g_dp->size, g_dp->data DATA_TARGET)
     __CPROVER_frees(idx + 1 > g_dp->size : g_dp->data)
     __CPROVER_ensures(ABORTS_IFF(dynar == NULL)) /*@ set_at_ptr_never_rejects_an_index */
     __CPROVER_ensures(vf_exc != 0 || g_dp->used == (idx >= OLD(g_dp->used) ? idx + 1 : OLD(g_dp->used)))
@@ -306,14 +329,16 @@ void* xbt_dynar_set_at_ptr(struct xbt_dynar_s* dynar, unsigned long idx)
 #define INSERT_IDX_OK(idx) ((idx) < 0 || (unsigned long)(idx) <= g_dp->used)
 /* link of the memmove ghosts with the watched byte: inserting at idx moves the bytes of elements idx.. */
 #define INSERT_MV(idx)                                                                                                 \
-  (G_MV == (G_IN && (idx) >= 0 && GE >= (unsigned long)(idx)) && (!G_MV || GMK == GPOS - (unsigned long)(idx)*g_dp->elmsize))
+  (G_MV == (G_IN && (idx) >= 0 && GE >= (unsigned long)(idx)) && (!G_MV || GMK == GPOS - (unsigned long)(idx)*g_dp->elmsize) && \
+   G_KP == (G_IN && (idx) >= 0 && GE < (unsigned long)(idx)))
 /* removing idx moves the bytes of elements idx+1.. */
 #define REMOVE_MV(idx)                                                                                                 \
   (G_MV == (G_IN && (idx) >= 0 && GE > (unsigned long)(idx)) &&                                                        \
-   (!G_MV || GMK == GPOS - ((unsigned long)(idx) + 1) * g_dp->elmsize))
+   (!G_MV || GMK == GPOS - ((unsigned long)(idx) + 1) * g_dp->elmsize) &&                                              \
+   G_KP == (G_IN && (idx) >= 0 && GE < (unsigned long)(idx))) /* the removed element itself (GE == idx) is overwritten */
 void* xbt_dynar_insert_at_ptr(struct xbt_dynar_s* dynar, int idx)
     __CPROVER_requires(NO_EXC && (dynar == NULL || IS_DYN(dynar)) && WF_IN && WATCH && INSERT_IDX_OK(idx) && INSERT_MV(idx))
-    __CPROVER_assigns(vf_exc, g_dp->size, g_dp->data, g_dp->used DATA_TARGET)
+    __CPROVER_assigns(vf_exc, g_dp->used; g_dp->used + 1 > g_dp->size : g_dp->size, g_dp->data DATA_TARGET)
     __CPROVER_frees(g_dp->used + 1 > g_dp->size : g_dp->data)
     __CPROVER_ensures(ABORTS_IFF(dynar == NULL || idx < 0))                    /*@ insert_aborts_iff_negative_index */
     __CPROVER_ensures(vf_exc != 0 || g_dp->used == OLD(g_dp->used) + 1)         /*@ insert_grows_by_one */
@@ -328,7 +353,7 @@ void* xbt_dynar_insert_at_ptr(struct xbt_dynar_s* dynar, int idx)
 void xbt_dynar_insert_at(struct xbt_dynar_s* dynar, int idx, void* src)
     __CPROVER_requires(NO_EXC && IS_DYN(dynar) && WF_IN && WATCH && INSERT_IDX_OK(idx) && INSERT_MV(idx) && src == g_src &&
                        G_CPK == G_IN && GCP == ((idx) >= 0 && GE >= (unsigned long)(idx) ? GPOS + g_dp->elmsize : GPOS))
-    __CPROVER_assigns(vf_exc, g_dp->size, g_dp->data, g_dp->used DATA_TARGET)
+    __CPROVER_assigns(vf_exc, g_dp->used; g_dp->used + 1 > g_dp->size : g_dp->size, g_dp->data DATA_TARGET)
     __CPROVER_frees(g_dp->used + 1 > g_dp->size : g_dp->data)
     __CPROVER_ensures(ABORTS_IFF(idx < 0))                              /*@ insert_at_aborts_iff_negative_index */
     __CPROVER_ensures(vf_exc != 0 || g_dp->used == OLD(g_dp->used) + 1) /*@ insert_at_grows_by_one */
@@ -358,15 +383,15 @@ void xbt_dynar_remove_at(struct xbt_dynar_s* dynar, int idx, void* object)
     __CPROVER_ensures(vf_exc == 0 || (UNCHANGED && g_calls == 0)) /*@ remove_rejected_changes_nothing */;
 
 int xbt_dynar_member(struct xbt_dynar_s* dynar, void* elem)
-    __CPROVER_requires(NO_EXC && IS_DYN(dynar) && WF_IN && WATCH && elem == g_src)
+    __CPROVER_requires(NO_EXC && IS_DYN(dynar) && WF_IN && ELM_OK && WATCH && elem == g_src)
     __CPROVER_assigns()
     __CPROVER_ensures(__CPROVER_return_value == 0 || __CPROVER_return_value == 1)
     __CPROVER_ensures(__CPROVER_return_value != 0 || !(GE < g_dp->used) || !EQ_ELEM(GE)) /*@ member_0_means_no_element_equal */
     __CPROVER_ensures(__CPROVER_return_value != 1 || ANYE(IS_MATCH))                      /*@ member_1_means_some_element_equal */;
 
 void* xbt_dynar_push_ptr(struct xbt_dynar_s* dynar)
-    __CPROVER_requires(NO_EXC && IS_DYN(dynar) && WF_IN && WATCH && !G_MV)
-    __CPROVER_assigns(vf_exc, g_dp->size, g_dp->data, g_dp->used DATA_TARGET)
+    __CPROVER_requires(NO_EXC && IS_DYN(dynar) && WF_IN && WATCH && !G_MV && G_KP == G_IN)
+    __CPROVER_assigns(vf_exc, g_dp->used; g_dp->used + 1 > g_dp->size : g_dp->size, g_dp->data DATA_TARGET)
     __CPROVER_frees(g_dp->used + 1 > g_dp->size : g_dp->data)
     __CPROVER_ensures(NO_EXC && g_dp->used == OLD(g_dp->used) + 1) /*@ push_ptr_grows_by_one */
     __CPROVER_ensures(g_dp->used <= g_dp->size && g_dp->size <= SZOUT && BLOCK_POST(OLD(g_dp->used) + 1 > OLD(g_dp->size)))
@@ -375,8 +400,8 @@ void* xbt_dynar_push_ptr(struct xbt_dynar_s* dynar)
     __CPROVER_ensures(!(GE < OLD(g_dp->used)) || BYTE(GE, GB) == g_old) /*@ push_ptr_keeps_elements */;
 
 void xbt_dynar_push(struct xbt_dynar_s* dynar, void* src)
-    __CPROVER_requires(NO_EXC && IS_DYN(dynar) && WF_IN && WATCH && src == g_src && !G_MV && G_CPK == G_IN && GCP == GPOS)
-    __CPROVER_assigns(vf_exc, g_dp->size, g_dp->data, g_dp->used DATA_TARGET)
+    __CPROVER_requires(NO_EXC && IS_DYN(dynar) && WF_IN && WATCH && src == g_src && !G_MV && G_KP == G_IN && G_CPK == G_IN && GCP == GPOS)
+    __CPROVER_assigns(vf_exc, g_dp->used; g_dp->used + 1 > g_dp->size : g_dp->size, g_dp->data DATA_TARGET)
     __CPROVER_frees(g_dp->used + 1 > g_dp->size : g_dp->data)
     __CPROVER_ensures(NO_EXC && g_dp->used == OLD(g_dp->used) + 1) /*@ push_grows_by_one */
     __CPROVER_ensures(g_dp->used <= g_dp->size && g_dp->size <= SZOUT && BLOCK_POST(OLD(g_dp->used) + 1 > OLD(g_dp->size)))
@@ -394,7 +419,8 @@ void* xbt_dynar_pop_ptr(struct xbt_dynar_s* dynar)
     __CPROVER_ensures(vf_exc == 0 || UNCHANGED);
 
 void xbt_dynar_pop(struct xbt_dynar_s* dynar, void* dst)
-    __CPROVER_requires(NO_EXC && IS_DYN(dynar) && WF_IN && WATCH && (dst == NULL || dst == g_buf) && CB_RESET && !G_MV)
+    __CPROVER_requires(NO_EXC && IS_DYN(dynar) && WF_IN && WATCH && (dst == NULL || dst == g_buf) && CB_RESET && !G_MV &&
+                       G_KP == (G_IN && GE + 1 < g_dp->used))
     __CPROVER_assigns(vf_exc, g_dp->used, __CPROVER_object_whole(g_buf), g_calls, g_last_arg, g_in_order DATA_TARGET)
     __CPROVER_ensures(ABORTS_IFF(OLD(g_dp->used) == 0))                                  /*@ pop_aborts_iff_empty */
     __CPROVER_ensures(vf_exc != 0 || (g_dp->used == OLD(g_dp->used) - 1 && SAME_BLOCK)) /*@ pop_shrinks_by_one */
@@ -403,9 +429,9 @@ void xbt_dynar_pop(struct xbt_dynar_s* dynar, void* dst)
     __CPROVER_ensures(vf_exc == 0 || UNCHANGED);
 
 void xbt_dynar_unshift(struct xbt_dynar_s* dynar, void* src)
-    __CPROVER_requires(NO_EXC && IS_DYN(dynar) && WF_IN && WATCH && src == g_src && G_MV == G_IN && (!G_MV || GMK == GPOS) && G_CPK == G_IN &&
+    __CPROVER_requires(NO_EXC && IS_DYN(dynar) && WF_IN && WATCH && src == g_src && G_MV == G_IN && (!G_MV || GMK == GPOS) && !G_KP && G_CPK == G_IN &&
                        GCP == GPOS + g_dp->elmsize)
-    __CPROVER_assigns(vf_exc, g_dp->size, g_dp->data, g_dp->used DATA_TARGET)
+    __CPROVER_assigns(vf_exc, g_dp->used; g_dp->used + 1 > g_dp->size : g_dp->size, g_dp->data DATA_TARGET)
     __CPROVER_frees(g_dp->used + 1 > g_dp->size : g_dp->data)
     __CPROVER_ensures(NO_EXC && g_dp->used == OLD(g_dp->used) + 1) /*@ unshift_grows_by_one */
     __CPROVER_ensures(g_dp->used <= g_dp->size && g_dp->size <= SZOUT && BLOCK_POST(OLD(g_dp->used) + 1 > OLD(g_dp->size)))
@@ -413,7 +439,7 @@ void xbt_dynar_unshift(struct xbt_dynar_s* dynar, void* src)
     __CPROVER_ensures(!(GE < OLD(g_dp->used)) || BYTE(GE + 1, GB) == g_old) /*@ unshift_shifts_everything_right */;
 
 void xbt_dynar_shift(struct xbt_dynar_s* dynar, void* dst)
-    __CPROVER_requires(NO_EXC && IS_DYN(dynar) && WF_IN && WATCH && (dst == NULL || dst == g_buf) && CB_RESET && G_MV == (G_IN && GE > 0) && (!G_MV || GMK == GPOS - g_dp->elmsize))
+    __CPROVER_requires(NO_EXC && IS_DYN(dynar) && WF_IN && WATCH && (dst == NULL || dst == g_buf) && CB_RESET && G_MV == (G_IN && GE > 0) && (!G_MV || GMK == GPOS - g_dp->elmsize) && !G_KP)
     __CPROVER_assigns(vf_exc, g_dp->used, __CPROVER_object_whole(g_buf), g_calls, g_last_arg, g_in_order DATA_TARGET)
     __CPROVER_ensures(ABORTS_IFF(OLD(g_dp->used) == 0))                                  /*@ shift_aborts_iff_empty */
     __CPROVER_ensures(vf_exc != 0 || (g_dp->used == OLD(g_dp->used) - 1 && SAME_BLOCK)) /*@ shift_shrinks_by_one */
@@ -503,7 +529,11 @@ _Bool nondet_bool(void);
 static void setup(void)
 {
   g_dp          = malloc(sizeof(*g_dp));
+#ifdef ELM
+  g_dp->elmsize = ELM;
+#else
   g_dp->elmsize = (nondet_ul() & (ELMMAX - 1UL)) + 1UL;
+#endif
   g_dp->size    = nondet_ul() & SZMAX;
   g_dp->used    = nondet_ul() & SZMAX;
   __CPROVER_assume(g_dp->used <= g_dp->size);
@@ -516,6 +546,7 @@ static void setup(void)
   GPOS = GE * g_dp->elmsize + GB;
   GMK  = nondet_ul() & (4UL * BYTES_MAX - 1UL);
   G_MV = nondet_bool();
+  G_KP = nondet_bool();
   GCP  = nondet_ul() & (4UL * BYTES_MAX - 1UL);
   G_CPK = nondet_bool();
   G_IN = GE < g_dp->used;
@@ -631,7 +662,7 @@ HARNESS(x, xbt_dynar_insert_at(g_dp, nondet_int(), g_src))
 #ifdef H_remove_at
 HARNESS(x, xbt_dynar_remove_at(dyn_or_null(), nondet_int(), buf_or_null()))
 #endif
-#ifdef H_member
+#ifdef H_member /* run as member_e4 / member_e8 (-DELM=4 / -DELM=8) */
 HARNESS(x, xbt_dynar_member(g_dp, g_src))
 #endif
 #ifdef H_push_ptr
@@ -669,4 +700,184 @@ HARNESS(x, xbt_dynar_free(nondet_bool() ? NULL : &g_var))
 #endif
 #ifdef H_cursor_get
 HARNESS(x, _xbt_dynar_cursor_get(dyn_or_null(), nondet_uint(), g_buf))
+#endif
+
+/* =====================================================================================================================
+ * xbt_dict (src/xbt/dict.cpp, dict_elm.c, dict_cursor.c): BOUNDED check, no contracts.
+ * The real bodies of xbt_dict_new_homogeneous / set_ext / set / get_or_null_ext / get_or_null / get_elm_or_null /
+ * remove_ext / length / size / is_empty / xbt_dictelm_new / _free / _set_data / xbt_str_hash(_ext) and of the cursor
+ * (first / rewind / new / step / get_or_free / free) are executed symbolically ("plain" harness: no dfcc, loops unwound
+ * with unwinding assertions) over EVERY sequence of DICT_NOPS operations on at most 3 pairwise different keys of at most
+ * 2 characters (all key characters, the operation kinds, the values and free_f symbolic), on the real 128-cell table.
+ * The view is a finite map (P[i], V[i]); after every operation every key is looked up through both lookup functions and
+ * count / fill / emptiness are compared with the map. Symbolic keys include keys that fall into one cell; the
+ * *_collide variants force all three keys into one cell (constraint on the value of the real hash function).
+ * ===================================================================================================================== */
+struct s_xbt_mallocator* dict_elm_mallocator; /* the element mallocator is modelled by malloc/free (object pool dropped) */
+void* xbt_mallocator_get(struct s_xbt_mallocator* m)
+{
+  (void)m;
+  return malloc(sizeof(struct s_xbt_dictelm));
+}
+void xbt_mallocator_release(struct s_xbt_mallocator* m, void* p)
+{
+  (void)m;
+  free(p);
+}
+void xbt_dict_preinit(void) {} /* creates the mallocator under a std::mutex: outside the model */
+void xbt_dict_rehash(struct s_xbt_dict* d)
+{
+  (void)d;
+  __CPROVER_assert(0, "xbt_dict_rehash is not reachable: 3 keys never fill 80% of 128 cells"); /*@ dict_rehash_unreachable */
+}
+
+#if defined(H_dict_ops) || defined(H_dict_cursor)
+#ifndef DICT_NOPS
+#define DICT_NOPS 4
+#endif
+static char K0[3], K1[3], K2[3]; /* the keys, NUL terminated: one object per key and a pointer chosen among constant
+                                  * addresses (a 2-D array indexed by a symbolic i turns every key read into a byte
+                                  * extract over the whole array: 800 MB of formula) */
+#define K(i) ((i) == 0 ? K0 : (i) == 1 ? K1 : K2)
+static int KL[3];         /* their lengths (0..2) */
+static unsigned int HB[3]; /* their cells: real hash & 127 */
+static _Bool P[3];        /* view: key i present */
+static void* V[3];        /* view: its value */
+static char g_vals[4];    /* the values are addresses of these */
+static unsigned long g_freed;
+static void* g_freed_last;
+void dict_free_cb(void* p)
+{
+  g_freed++;
+  g_freed_last = p;
+}
+char nondet_char(void);
+static _Bool key_eq(int i, int j)
+{
+  return KL[i] == KL[j] && (KL[i] < 1 || K(i)[0] == K(j)[0]) && (KL[i] < 2 || K(i)[1] == K(j)[1]);
+}
+static struct s_xbt_dict* dict_setup(void)
+{
+  vf_exc = 0;
+  for (int i = 0; i < 3; i++) {
+    KL[i] = nondet_int();
+    __CPROVER_assume(0 <= KL[i] && KL[i] <= 2);
+    K(i)[0] = nondet_char();
+    K(i)[1] = nondet_char();
+    K(i)[2] = 0;
+    K(i)[KL[i]] = 0;
+    __CPROVER_assume((KL[i] < 1 || K(i)[0] != 0) && (KL[i] < 2 || K(i)[1] != 0));
+    HB[i] = xbt_str_hash_ext(K(i), KL[i]) & 127u;
+    P[i]  = 0;
+    V[i]  = NULL;
+  }
+  __CPROVER_assume(!key_eq(0, 1) && !key_eq(0, 2) && !key_eq(1, 2));
+#ifdef COLLIDE
+  __CPROVER_assume(HB[0] == HB[1] && HB[1] == HB[2]); /* all three keys in one cell of the table */
+#endif
+  g_freed = 0;
+  struct s_xbt_dict* d = xbt_dict_new_homogeneous(nondet_bool() ? NULL : (vf_fnptr)dict_free_cb);
+  __CPROVER_assert(vf_exc == 0 && d != NULL && d->count == 0 && d->fill == 0 && d->table_size == 127, "new dict is empty"); /*@ dict_new_is_empty */
+  return d;
+}
+/* the view is compared for ONE key chosen by the solver (as complete as comparing all three, three times cheaper) */
+static void dict_check_view(struct s_xbt_dict* d)
+{
+  int i = nondet_int();
+  __CPROVER_assume(0 <= i && i <= 2);
+  void* r1 = xbt_dict_get_or_null_ext(d, K(i), KL[i]);
+  void* r2 = xbt_dict_get_or_null(d, K(i));
+  __CPROVER_assert(r1 == (P[i] ? V[i] : NULL), "get_or_null_ext agrees with the map"); /*@ dict_get_ext_agrees_with_map */
+  __CPROVER_assert(r2 == (P[i] ? V[i] : NULL), "get_or_null agrees with the map");     /*@ dict_get_agrees_with_map */
+  __CPROVER_assert(vf_exc == 0, "lookups do not throw");
+  int n = (P[0] ? 1 : 0) + (P[1] ? 1 : 0) + (P[2] ? 1 : 0);
+  __CPROVER_assert(xbt_dict_length(d) == n && xbt_dict_size(d) == (unsigned)n && xbt_dict_is_empty(d) == (n == 0),
+                   "length/size/is_empty agree with the map"); /*@ dict_length_agrees_with_map */
+  int cells = (P[0] ? 1 : 0) + ((P[1] && !(P[0] && HB[0] == HB[1])) ? 1 : 0) +
+              ((P[2] && !(P[0] && HB[0] == HB[2]) && !(P[1] && HB[1] == HB[2])) ? 1 : 0);
+  __CPROVER_assert(d->fill == cells, "fill counts the non-empty cells"); /*@ dict_fill_counts_nonempty_cells */
+}
+/* one operation chosen by the solver, mirrored on the map */
+static void dict_step(struct s_xbt_dict* d)
+{
+  int i = nondet_int(), op = nondet_int();
+  __CPROVER_assume(0 <= i && i <= 2 && 0 <= op && op <= 2);
+  void* v                = &g_vals[nondet_uint() & 3u];
+  unsigned long freed0   = g_freed;
+  _Bool frees            = d->free_f != NULL && P[i];
+  if (op <= 1) {
+    if (op == 0)
+      xbt_dict_set_ext(d, K(i), KL[i], v);
+    else
+      xbt_dict_set(d, K(i), v);
+    __CPROVER_assert(vf_exc == 0, "set never throws");                                               /*@ dict_set_never_throws */
+    __CPROVER_assert(g_freed == freed0 + (frees ? 1 : 0) && (!frees || g_freed_last == V[i]),
+                     "set releases exactly the replaced value"); /*@ dict_set_frees_replaced_value */
+    P[i] = 1;
+    V[i] = v;
+  } else {
+    xbt_dict_remove_ext(d, K(i), KL[i]);
+    __CPROVER_assert((vf_exc == VF_EXC_out_of_range) == !P[i] && (vf_exc == 0 || vf_exc == VF_EXC_out_of_range),
+                     "remove throws out_of_range iff the key is absent"); /*@ dict_remove_throws_iff_absent */
+    __CPROVER_assert(g_freed == freed0 + (frees ? 1 : 0) && (!frees || g_freed_last == V[i]),
+                     "remove releases exactly the removed value"); /*@ dict_remove_frees_removed_value */
+    vf_exc = 0;
+    P[i]   = 0;
+  }
+}
+/* any number of operations up to DICT_NOPS (so the final comparison covers every intermediate state too) */
+static void dict_history(struct s_xbt_dict* d)
+{
+  int m = nondet_int();
+  __CPROVER_assume(0 <= m && m <= DICT_NOPS);
+  for (int s = 0; s < DICT_NOPS; s++)
+    if (s < m)
+      dict_step(d);
+}
+#endif
+
+#ifdef H_dict_ops
+void harness(void)
+{
+  struct s_xbt_dict* d = dict_setup();
+  dict_history(d);
+  dict_check_view(d);
+  VF_CANARY_POINT;
+}
+#endif
+
+#ifdef H_dict_cursor
+/* iteration (xbt_dict_foreach = cursor_first; get_or_free; step): after any DICT_NOPS operations the cursor yields
+ * every present key exactly once with its value, nothing else, then frees itself */
+void harness(void)
+{
+  struct s_xbt_dict* d = dict_setup();
+  dict_history(d);
+  struct s_xbt_dict_cursor* cur = NULL;
+  char* key;
+  void* data;
+  int seen[3] = {0, 0, 0};
+  int n = 0, others = 0;
+  xbt_dict_cursor_first(d, &cur);
+  for (int it = 0; it < 4; it++) {
+    if (!xbt_dict_cursor_get_or_free(&cur, &key, &data))
+      break;
+    n++;
+    _Bool hit = 0;
+    for (int i = 0; i < 3; i++)
+      if (P[i] && key[0] == K(i)[0] && (K(i)[0] == 0 || (key[1] == K(i)[1] && (K(i)[1] == 0 || key[2] == 0)))) {
+        seen[i]++;
+        hit = 1;
+        __CPROVER_assert(data == V[i], "the cursor yields the value of the key"); /*@ dict_cursor_yields_value */
+      }
+    if (!hit)
+      others++;
+    xbt_dict_cursor_step(cur);
+  }
+  __CPROVER_assert(vf_exc == 0 && cur == NULL, "the iteration ends within count steps and releases the cursor"); /*@ dict_cursor_terminates */
+  __CPROVER_assert(others == 0 && seen[0] == (P[0] ? 1 : 0) && seen[1] == (P[1] ? 1 : 0) && seen[2] == (P[2] ? 1 : 0),
+                   "the cursor visits every present key exactly once and nothing else"); /*@ dict_cursor_visits_each_key_once */
+  __CPROVER_assert(n == xbt_dict_length(d), "as many items as the length");           /*@ dict_cursor_count_is_length */
+  VF_CANARY_POINT;
+}
 #endif
